@@ -12,7 +12,11 @@ observed : `h1=<client>|<server>|<echo> [h2=…] [e1c=… e1s=… …]`
              end  = `ok:<vers>:<suite>:<alpn|->:<resumed>:<peer certs S/E|->:<server name|->`
                   | `fail` | `timeout` | `incomplete`
              echo = `ok` | `bad` | `-`
-           the `e…` tokens (error texts) are secondary: copied into the model line, compared
+             `timeout` = the end had not returned from Handshake by itself when the harness gave up
+             (4 s after the other end had failed, or at the watchdog's limit): the handshake did not
+             END on that side — judged as `hang`, whatever the configurations
+           the `w…` (how each end of a failed connection came to its end: ok | own | alert | eof |
+           timeout) and `e…` tokens (error texts) are secondary: copied into the model line, compared
            with the failure the model predicts in a note only.
 -/
 import Gotlcp.Oracle.Common
@@ -165,17 +169,32 @@ def viewDiff (got want : View) : String :=
   else if got.serverName != want.serverName then "name"
   else ""
 
+/-- "ends on both sides": an end that had not returned from Handshake by itself when the harness gave
+up (`timeout`: 4 s after the other end had failed, or at the watchdog's limit — the transport is
+lossless and immediate, an end that is told returns within milliseconds) has not ended -/
+def hangReason (i : Nat) (c s : String) : String :=
+  let one (who other ost : String) :=
+    s!"handshake {i} did not end on both sides: the {who} had not returned from Handshake when the harness gave up" ++
+    (if ost == "fail" then s!" although the {other} had failed — it was never told (no fatal alert reached it) and went on waiting / retransmitting"
+     else s!" (the {other}: {ost})")
+  if c == "timeout" && s == "timeout" then s!"handshake {i} did not end on either side"
+  else if c == "timeout" then one "client" "server" s
+  else one "server" "client" c
+
+def endStatus (st : String) : Spec.Negotiate.EndStatus :=
+  if st == "ok" then .succeeded else if st == "fail" then .failed else .notEnded
+
 def judgeRound (i : Nat) (c : ClientCfg) (s : ServerCfg) (want : Agreed) (tok : String) : Option (String × String) :=
   match tok.splitOn "|" with
   | [ce, se, echo] =>
     match parseEnd ce, parseEnd se with
     | some oc, some os =>
-      if oc.status == "timeout" || os.status == "timeout" then
-        some ("hang", s!"handshake {i} did not end on both sides ({oc.status}/{os.status})")
-      else if oc.status == "incomplete" || os.status == "incomplete" then
+      if oc.status == "incomplete" || os.status == "incomplete" then
         some ("incomplete", s!"handshake {i} returned nil without completing ({oc.status}/{os.status})")
-      else if (oc.status == "ok") != (os.status == "ok") then
-        some ("split", s!"handshake {i}: client {oc.status}, server {os.status}")
+      else if !Spec.Negotiate.endsOK (endStatus oc.status) (endStatus os.status) then
+        -- "ends on both sides, succeeding on both or failing on both"
+        if oc.status == "timeout" || os.status == "timeout" then some ("hang", hangReason i oc.status os.status)
+        else some ("split", s!"handshake {i}: client {oc.status}, server {os.status}")
       else
         let compat := Spec.Negotiate.compatible c s
         match oc.view, os.view with
@@ -218,10 +237,11 @@ def parseRound (i : Nat) (tok : String) : Sum (String × String) (Option Agreed 
   | [ce, se, echo] =>
     match parseEnd ce, parseEnd se with
     | some oc, some os =>
-      if oc.status == "timeout" || os.status == "timeout" then
-        .inl ("hang", s!"handshake {i} did not end on both sides ({oc.status}/{os.status})")
-      else if oc.status == "incomplete" || os.status == "incomplete" then
+      if oc.status == "incomplete" || os.status == "incomplete" then
         .inl ("incomplete", s!"handshake {i} returned nil without completing ({oc.status}/{os.status})")
+      else if !Spec.Negotiate.endsOK (endStatus oc.status) (endStatus os.status) then
+        if oc.status == "timeout" || os.status == "timeout" then .inl ("hang", hangReason i oc.status os.status)
+        else .inl ("split", s!"handshake {i}: client {oc.status}, server {os.status}")
       else
         match oc.view, os.view with
         | some cv, some sv => .inr (some ⟨cv, sv⟩, echo)
